@@ -20,7 +20,8 @@ func init() {
 			"fetching only touches objects and remote-tracking refs) and REFUSES (returns one of the frozen refusal sentinels, or calls an options Validate method, the target resolvers, or another REFUSES function) — " +
 			"and in each entry point's CFG no REFUSES call or refusal return is reachable after a MUTATES call. A call to Reset after a mutation is accepted only when the caller ran resetRefusals on the same options and set " +
 			"refusalsChecked on every path, and Reset consults its refusals only behind that flag. A mutating call is compensated, and not counted, when it changes the index only (its closure inside package git reaches no reference mutator and " +
-			"no worktree write) and a deferred function registered on every path before it puts a saved copy of the index (a package function applied to what Storer.Index() returned) back whenever the named error result is non-nil. Not decided: failures injected at filesystem calls after the first mutation (not refusals); that the refusal predicates are complete (C30).",
+			"no worktree write) and a deferred function registered on every path before it puts a saved copy of the index (a package function applied to what Storer.Index() returned) back whenever the named error result is non-nil. (index-write-is-last-fallible-step) in the operations whose only lasting effect is the index (Add, AddGlob, AddWithOptions, doAdd, Remove, RemoveGlob, Move) no call that can fail is reachable after a call that stores the index — " +
+			"the private copy is stored once, last; stored per matched path, a later failure leaves the earlier matches staged. Not decided: failures injected at filesystem calls after the first mutation (not refusals); that the refusal predicates are complete (C30).",
 		Assumptions: []string{"the refusal table lists the errors that mean 'the operation declines to run' as opposed to I/O failures"},
 		Run:         runC29,
 	})
@@ -33,7 +34,7 @@ func init() {
 			"(untracked-overwrite-refused) under Mode == MergeReset (which non-forced checkout uses) and under Mode == KeepReset, resetRefusals reaches success only across the success edge of a function that walks Worktree.Status and returns a refusal " +
 			"sentinel in a loop that tests the Untracked status code (mode-infeasible edges are pruned from the search); (staged-changes-refused) the same search for a status loop that tests .Staging against Unmodified: keep mode holds, merge mode " +
 			"is a recorded known finding (staged-only changes are discarded); (keep-preserves-unrelated-edits) under the scenario 'keep parameter true, action == Modify' the file-writing call of resetWorktreeToTree is reachable only across the ok " +
-			"edge of a lookup in the set of paths that differ between the two trees. Not decided: that the predicates detect every overwritten modification; locally deleted files under keep.",
+			"edge of a lookup in the set of paths that differ between the two trees; (unblock-removes-only-symlinks) the helper that clears what is in the way of a written entry (it runs for non-forced switches too, after the refusal checks, which only look at the exact paths written) removes nothing but symbolic links: an untracked regular file standing where a directory is needed makes the write fail, it is not deleted. Not decided: that the predicates detect every overwritten modification; locally deleted files under keep.",
 		Assumptions: []string{"Worktree.Status reports local modifications correctly (C27)"},
 		Run:         runC30,
 	})
@@ -194,6 +195,7 @@ func runC29(c *Ctx) {
 		return
 	}
 	info := pk.TypesInfo
+	checkIndexWriteIsLast(c, "index-write-is-last-fallible-step")
 	eff := computePorcelainEffects(p)
 	c.Extra["mutating_functions"] = len(eff.mut)
 	c.Extra["refusing_functions"] = len(eff.ref)
@@ -411,6 +413,7 @@ func runC30(c *Ctx) {
 		return
 	}
 	info := pk.TypesInfo
+	checkUnblockRemovesOnlySymlinks(c, "unblock-removes-only-symlinks")
 	const r1 = "reset-refusal-present"
 	modeIs := func(name string, want bool) PassEdge {
 		obj := p.lookupObj("git", name)
